@@ -12,6 +12,7 @@ import AgeModel.Extracted.Panics
 import AgeModel.Extracted.CallOrder
 import Proofs.GoTieScrypt
 import Proofs.GoTieFormat
+import Proofs.GoTieStreamW
 namespace AgeModel
 namespace Tie.C14
 
@@ -59,6 +60,33 @@ theorem header_parser_returns (D : Bytes → Go.M (Bytes × Option Go.Err)) (eD 
     (input : Bytes) : ∃ res, Extracted.format_Parse D input = .ok res :=
   let ⟨res, h, _⟩ := GoTie.parse_tie D eD hD input
   ⟨res, h⟩
+
+
+/-! ## The code itself: no panic, no fault in the STREAM code. The translated `Read`, `Write` and
+    `Close` RETURN from every related state (for every buffer size, every source and destination
+    behaviour, fewer than 2^88 chunks): none of the three explicit `panic`s of stream.go (dirty
+    buffer, partial-chunk flush, counter wrap), no index or slice out of range, no append that
+    would leave the array a view looks into (`Go.Fault.alias`), no exhausted loop fuel. -/
+
+theorem stream_read_returns {α : Type} (A : AEAD) (k : Bytes) (E : GoTie.AeadEnv α A k)
+    (r : Extracted.stream_Reader α) (m : AgeModel.Stream.Reader) (h : GoTie.RRel r m) (hctr : m.ctr + 1 < 2 ^ 88) (p : Bytes) :
+    ∃ res, Extracted.stream_Reader_Read E.over E.open_ r p = .ok res :=
+  let ⟨res, h1, _⟩ := GoTie.reader_read_tie A k E r m h hctr p
+  ⟨res, h1⟩
+
+theorem stream_write_returns {α δ : Type} {S : AgeModel.Stream.DstSpec} (A : AEAD) (k : Bytes) (E : GoTie.AeadEnv α A k)
+    (D : GoTie.DstEnv δ S) (w : Extracted.stream_Writer α δ) (m : AgeModel.Stream.Writer S) (h : GoTie.WRel D w m) (p : Bytes)
+    (hctr : m.ctr + p.length / 65536 + 2 < 2 ^ 88) :
+    ∃ res, Extracted.stream_Writer_Write E.seal_ D.write w p = .ok res :=
+  let ⟨res, h1, _⟩ := GoTie.writer_write_tie A k E D w m h p hctr
+  ⟨res, h1⟩
+
+theorem stream_close_returns {α δ : Type} {S : AgeModel.Stream.DstSpec} (A : AEAD) (k : Bytes) (E : GoTie.AeadEnv α A k)
+    (D : GoTie.DstEnv δ S) (w : Extracted.stream_Writer α δ) (m : AgeModel.Stream.Writer S) (h : GoTie.WRel D w m)
+    (hctr : m.ctr + 2 < 2 ^ 88) :
+    ∃ res, Extracted.stream_Writer_Close E.seal_ D.write w = .ok res :=
+  let ⟨res, h1, _⟩ := GoTie.writer_close_tie A k E D w m h hctr
+  ⟨res, h1⟩
 
 end Tie.C14
 end AgeModel
